@@ -63,9 +63,14 @@ def consts_of(e):
 class ReoWorld(StubWorld):
     """contract stubs that can raise the reordering request"""
 
-    def __init__(self, m, B, fires):
+    def __init__(self, m, B, fires, permute=False, extra_slots=2):
         super().__init__(m)
         self.B = B
+        self.permute = permute
+        self.G = extra_slots
+        self.gen = 0
+        self.perm_total = list(range(m.L))      # level of each original level's variable now
+        self.den0 = m.den
         self.fires_left = fires
         self.fired_at = []
         self.stale = set()          # names of result constants that are stale
@@ -116,6 +121,63 @@ class ReoWorld(StubWorld):
             for cn in consts_of(r):
                 if self.protected.get(cn, 0) <= 0:
                     self.stale.add(cn)
+        if self.permute:
+            self._new_order(bdd)
+
+    def _new_order(self, bdd):
+        """contract of a reordering that really changes the order: a fresh
+        arbitrary valid state over the new order in which every node that was
+        held (all real nodes of this harness, and the protected results) is
+        present with the same number and the same function by name"""
+        from ..state import State, Den, inv_struct
+        c = engine.CTX
+        m = self.m
+        L = m.L
+        perms = list(itertools.permutations(range(L)))
+        p = list(perms[c.choose(len(perms), 'new-order')])     # p[i]: new level of the variable at level i
+        if p == list(range(L)):
+            return
+        self.gen += 1
+        tag = f'r{self.gen}'
+        old, oden = m.st.copy(), m.den
+        new, nden = State(tag), Den(L, tag)
+        NS = m.N + self.G
+        ids = list(range(1, NS + 1))
+        for a in inv_struct(new, ids, L, with_pred=False):
+            c.assume(a)
+        for a in nden.axioms(new, ids):
+            c.assume(a)
+        W = nden.W
+        for k in ids:
+            c.assume(z3.Implies(z3.Select(new.P, k), z3.Extract(W - 1, W - 1, z3.Select(nden.D, k)) == 1))
+            c.assume(z3.Select(new.RP, k) == z3.Select(new.P, k))
+            c.assume(z3.Select(new.RF, k) >= 0)
+        for k in range(1, m.N + 1):
+            c.assume(z3.Implies(z3.Select(old.P, k), z3.And(
+                z3.Select(new.P, k),
+                z3.Select(nden.D, k) == oracle.bv_permute(oden, z3.Select(oden.D, k), p))))
+        keep = []
+        for r in self.results:
+            cn = consts_of(r)
+            if any(self.protected.get(x, 0) > 0 for x in cn):
+                a = z3.If(r < 0, -r, r)
+                keep.append(a)
+                c.assume(z3.Select(nden.D, a) == oracle.bv_permute(oden, z3.Select(oden.D, a), p))
+                c.assume(z3.And(z3.Select(new.LV, a) >= 0, z3.Select(new.LV, a) < L))
+                c.assume(z3.Implies(a <= NS, z3.Select(new.P, a)))
+        self.ghost_ids = keep
+        for fld in State.FIELDS:
+            setattr(m.st, fld, getattr(new, fld))
+        m.den = nden
+        m.N = NS
+        m.ids = ids
+        m.succ.maxid = NS
+        m.ref.maxid = NS
+        names_by_level = [bdd._level_to_var[i] for i in range(L)]
+        for i, nm in enumerate(names_by_level):
+            bdd.vars[nm] = p[i]
+            bdd._level_to_var[p[i]] = nm
+        self.perm_total = [p[x] for x in self.perm_total]
 
     def install(self, bdd):
         super().install(bdd)
@@ -143,9 +205,10 @@ class Harness:
     name = 'C09.dynamic-reordering'
     mode = 'M'
 
-    def __init__(self, N=3, L=2, fires=1, ops=None):
+    def __init__(self, N=3, L=2, fires=1, ops=None, permute=False):
         self.N, self.L, self.fires = N, L, fires
         self.ops = ops or OPS
+        self.permute = permute
 
     def install(self):
         self.B = base.import_dd('dd.bdd')
@@ -183,7 +246,7 @@ class Harness:
         # (`_last_len = 1`) makes the real request fire in the replays
         c.assume(z3.Select(m.st0.P, 2))
         bdd = m.install(B)
-        world = ReoWorld(m, B, self.fires)
+        world = ReoWorld(m, B, self.fires, permute=self.permute)
         world.install(bdd)
         self.sh.set(B, 'reorder', world.reorder)
         bdd._last_len = 1            # reordering enabled (configure(reordering=True))
@@ -298,8 +361,10 @@ class Harness:
         goals.append(Goal('no_stale_reference_used', z3.BoolVal(not world.stale_uses)))
         goals.append(Goal('result_is_not_a_stale_reference',
                           z3.BoolVal(not (consts_of(rz) & world.stale))))
+        want_now = want if world.perm_total == list(range(L)) else \
+            oracle.bv_permute(den, want, world.perm_total)
         goals.append(Goal('same_function_as_without_reordering',
-                          z3.And(world.present(rz), den.s(rz) == want)))
+                          z3.And(world.present(rz), m.den.s(rz) == want_now)))
         goals.append(Goal('reordering_still_enabled_afterwards',
                           z3.BoolVal(bdd._last_len is not None and bdd.configure()['reordering'] is True)))
         goals.append(Goal('context_flag_restored', z3.BoolVal(bdd._reordering_context is False)))
@@ -457,6 +522,84 @@ def _run_real(case, last_len):
     return None
 
 
+def _amplified(case):
+    """Second-stage replay for failures that need the reordering to really
+    change the order: the model's small manager is usually already in a
+    sifting-optimal order, so the same operation is run on a canned manager on
+    which sifting certainly moves variables (f = a1&b1 | a2&b2 | a3&b3 in the
+    order a1 a2 a3 b1 b2 b3), with the growth threshold lowered step by step,
+    and compared by name with a twin manager without reordering."""
+    B = concrete.fresh_dd()
+    from ..mgr import nodel_class
+    op = case['args']['op']
+    names = ['a1', 'a2', 'a3', 'b1', 'b2', 'b3']
+    n0, n1 = 'a2', 'b1'            # stand for names[0], names[1] of the model; both move under sifting
+
+    def build():
+        bdd = nodel_class(B)({nm: i for i, nm in enumerate(names)})
+        f = bdd.add_expr('(a1 /\\ b1) \\/ (a2 /\\ b2) \\/ (a3 /\\ b3)')
+        g = bdd.add_expr('(a2 # b1) \\/ a3')
+        h = bdd.add_expr('b1 /\\ ~ a2')
+        v0 = bdd.var(n0)
+        for x in (f, g, h, v0):
+            bdd.incref(x)
+        return bdd, f, g, h, v0
+
+    def run(bdd, f, g, h, v0):
+        if op == 'ite':
+            return bdd.ite(g, f, h)
+        if op == 'apply_and':
+            return bdd.apply('and', f, g)
+        if op == 'quantify':
+            return bdd.quantify(f, {n0}, False)
+        if op == 'forall_method':
+            return bdd.forall({n0}, f)
+        if op == 'quantify_kw':
+            return bdd.quantify(f, {n1}, forall=True)
+        if op == 'apply_forall':
+            return bdd.apply('forall', v0, f)
+        if op == 'cofactor':
+            return bdd.let({n0: True}, f)
+        if op == 'compose':
+            return bdd.let({n0: g}, f)
+        if op == 'rename':
+            return bdd.let({n0: 'a1'}, h)
+        if op == 'cube':
+            return bdd.cube({n0: True, n1: False})
+        if op == 'var':
+            return bdd.var(n1)
+        if op == 'add_expr':
+            return bdd.add_expr('(a2 /\\ ~ b1) \\/ (a3 /\\ b2)')
+        return None
+
+    twin = build()
+    want_r = run(*twin)
+    if want_r is None:
+        return None
+    want = concrete.tt_named(twin[0], want_r, names)
+    for th in range(1, 40):
+        bdd, f, g, h, v0 = build()
+        bdd.configure(reordering=True)
+        bdd._last_len = th
+        order0 = dict(bdd.vars)
+        try:
+            r = run(bdd, f, g, h, v0)
+        except B._NeedsReordering:
+            return dict(violates=True, key=f'{op}/reordering-signal-escapes',
+                        detail=f'{op} on the canned manager (_last_len={th}): _NeedsReordering reaches the caller')
+        except Exception as e:
+            return dict(violates=True, key=f'{op}/fails-when-reordering-fires',
+                        detail=f'{op} on the canned manager (_last_len={th}) raised {e!r}')
+        if dict(bdd.vars) == order0:
+            continue
+        if abs(r) not in bdd._succ or concrete.tt_named(bdd, r, names) != want:
+            return dict(violates=True, key=f'{op}/wrong-result-when-order-changes',
+                        detail=f'{op} on f = a1&b1|a2&b2|a3&b3 (order a1 a2 a3 b1 b2 b3, _last_len={th}): '
+                               f'reordering to {bdd.vars} fired during the call and the result differs by name '
+                               f'from the result without reordering')
+    return None
+
+
 def replay(case):
     c0 = {k: v for k, v in case.items() if k not in ('source', 'args', 'ref', 'ext')}
     bad0 = concrete.check_inv(concrete.install(c0), None)
@@ -471,6 +614,10 @@ def replay(case):
             res['observed'] = obs
             found.append(res)
     if not found:
+        res = _amplified(case)
+        if res is not None:
+            res['observed'] = obs
+            return res
         return dict(violates=False, detail='ok for every threshold tried', observed=obs)
     goal = case.get('goal', '')
     if 'signal' not in goal:
